@@ -615,7 +615,7 @@ func execC01Fault(c C01FaultCase) *Failure {
 		}
 		conn.Close()
 	})
-	ts := httptest.NewServer(front)
+	ts := ServeTCP(front)
 	defer ts.Close()
 	info := mcp.Implementation{Name: "verif-lib-client", Version: "1"}
 	var cl *mcp.Client
